@@ -48,5 +48,9 @@ class AlternateDeltaSquared(SequenceTransformer):
 
         dz = dxn - 2 * dxn_1 + dxn_2
         gz = gxn - 2 * gxn_1 + gxn_2
+        denominator = dz.T @ dz
+        if denominator == 0.0:
+            # The residuals are stagnating: no acceleration.
+            return gxn
 
-        return gxn - (dz.T @ dxn) / (dz.T @ dz) * gz
+        return gxn - (dz.T @ dxn) / denominator * gz
